@@ -209,13 +209,13 @@ theorem load_order_irrelevant_env_last (c : LoadSt) (ops₁ ops₂ : List (Level
   rw [load_order_irrelevant c ops₁ ops₂ hp hnd]
 
 /-- after `load_shell_env` the cache is the merge of all slots, the env slot holding what `Environment.load`
-    computed from the view of the levels loaded before -/
+    computed from the view of the OTHER levels (an env level left by an earlier load does not take part) -/
 theorem shell_env_view (c c' : LoadSt) (pre : List Char) (environ : Environ)
     (h : c.loadShellEnv pre environ = .ok c') :
-    ∃ ev, loadEnv pre environ (view c.slots) = .ok ev ∧ c'.slots = c.slots.set .env ev ∧
+    ∃ ev, loadEnv pre environ (view (c.slots.set .env [])) = .ok ev ∧ c'.slots = c.slots.set .env ev ∧
       c'.cache = view (c.slots.set .env ev) := by
   unfold LoadSt.loadShellEnv at h
-  cases hl : loadEnv pre environ (view c.slots) with
+  cases hl : loadEnv pre environ (view (c.slots.set .env [])) with
   | error e => simp [hl] at h
   | ok ev =>
     simp only [hl, Except.ok.injEq] at h
@@ -249,14 +249,23 @@ theorem loads_slot (c : LoadSt) (ops : List (Level × KVs)) (hnd : (ops.map Prod
       | some op => rfl
       | none => simp [LoadSt.load, Levels.set, Ne.symm h]
 
-/-- RECORDED FINDING (C03-unload-stale-cache), on the model of the code as it is: un-setting the runtime path (or the
-    project location) and loading again resets the slot but does not re-merge — the cache still shows a value that no
-    level defines any more, until the next merge -/
-theorem unload_leaves_cache_stale_counterexample :
-    getLeaf [['y']] ((LoadSt.init.load .runtime [(['y'], .leaf (.i 2))]).unload .runtime).cache = some (.i 2) ∧
-    getLeaf [['y']] (view ((LoadSt.init.load .runtime [(['y'], .leaf (.i 2))]).unload .runtime).slots) = none := by
-  simp [LoadSt.load, LoadSt.unload, LoadSt.init, Levels.set, Levels.empty, view, viewOf, merge_order_levels, mergeLevel,
-    mergeT, lookup, insert, getLeaf]
+/-- un-setting a file level and loading again drops the level: its slot is empty and the cache is the merge of
+    the remaining levels -/
+theorem unload_then_load_drops_level (c : LoadSt) (l : Level) :
+    (c.unload l).slots l = [] ∧ (c.unload l).cache = view (c.unload l).slots ∧
+    ∀ l', l' ≠ l → (c.unload l).slots l' = c.slots l' := by
+  refine ⟨by simp [LoadSt.unload, Levels.set], rfl, ?_⟩
+  intro l' h
+  simp [LoadSt.unload, Levels.set, h]
+
+/-- FIXED FINDING (C03-unload-stale-cache), the rule before the repair: the slot was reset but nothing re-merged —
+    the cache still showed a value that no level defined any more; the repaired rule drops it -/
+theorem unload_pinned_counterexample :
+    getLeaf [['y']] ((LoadSt.init.load .runtime [(['y'], .leaf (.i 2))]).unloadPinned .runtime).cache = some (.i 2) ∧
+    getLeaf [['y']] (view ((LoadSt.init.load .runtime [(['y'], .leaf (.i 2))]).unloadPinned .runtime).slots) = none ∧
+    getLeaf [['y']] ((LoadSt.init.load .runtime [(['y'], .leaf (.i 2))]).unload .runtime).cache = none := by
+  simp [LoadSt.load, LoadSt.unload, LoadSt.unloadPinned, LoadSt.init, Levels.set, Levels.empty, view, viewOf,
+    merge_order_levels, mergeLevel, mergeT, lookup, insert, getLeaf]
 
 /-! ## non-vacuity: concrete, nested, partially overlapping level contents -/
 
